@@ -25,9 +25,21 @@ HERE = os.path.dirname(os.path.abspath(__file__))
 
 # Genuine deviations of the unchanged code from the statement, reported in the final message of the
 # build; the integrator moves them to known_findings.json or commits a fix.
-# (none at present: the qualified-void c:type finding was repaired by /repo 1f72dc6 and is judged by the
-# ordinary c:type oracle again.)
+# alias-of-alias: `typedef int FooAlias; typedef FooAlias FooAlias2; FooAlias2 f(void);` (likewise a typedef
+# of a typedef of `const char *`, `char *`, `const FooRec *`, `const void *`): the return value is written
+# WITHOUT transfer-ownership (and the function introspectable="0", "Missing (transfer) annotation"), because
+# MainTransformer._get_transfer_default_return only looks at the first alias' own target type.  The statement
+# ("returned const values and basic types are not transferred while returned non-const strings are") gives
+# these returns a default.  Keys are the exact failing inputs (return position, the typedef name, the
+# qualifier bits of the use).
+PENDING_ALIAS2 = {'FooStr2': 'none', 'FooStr3': 'none', 'FooBuf2': 'full', 'FooAlias2': 'none', 'FooCRec2': 'none',
+                  'FooCvp2': 'none'}
 PENDING_FINDINGS = {}
+for _name, _want in sorted(PENDING_ALIAS2.items()):
+    for _q in (0, Q_CONST, Q_VOLATILE, Q_CONST | Q_VOLATILE):
+        PENDING_FINDINGS['transfer:' + json.dumps(['return', {'k': 'typedef', 'n': _name, 'q': _q}], sort_keys=True)] = (
+            "returned %s (a typedef of a typedef) gets no default transfer-ownership, the statement requires %r: "
+            "_get_transfer_default_return does not follow an alias whose target is another alias" % (_name, _want))
 
 # ------------------------------------------------------------------ include GIRs (generated)
 HDR = '''<?xml version="1.0"?>
@@ -140,12 +152,48 @@ PRELUDE = [
         {'name': 'FOO_FLAGS_A', 'value': 1}, {'name': 'FOO_FLAGS_B', 'value': 2}]}},
     {'d': 'typedef', 'name': 'FooAlias', 'type': {'k': 'basic', 'n': 'int'}},
     {'d': 'typedef', 'name': 'FooStr', 'type': {'k': 'ptr', 'to': {'k': 'basic', 'n': 'char', 'q': Q_CONST}}},
+    # typedef chains (alias, alias of alias) of const strings / non-const strings / basic types / const and
+    # non-const record pointers / const untyped pointers
+    {'d': 'typedef', 'name': 'FooBuf', 'type': {'k': 'ptr', 'to': {'k': 'basic', 'n': 'char', 'q': 0}}},
+    {'d': 'typedef', 'name': 'FooStr2', 'type': {'k': 'typedef', 'n': 'FooStr'}},
+    {'d': 'typedef', 'name': 'FooStr3', 'type': {'k': 'typedef', 'n': 'FooStr2'}},
+    {'d': 'typedef', 'name': 'FooBuf2', 'type': {'k': 'typedef', 'n': 'FooBuf'}},
+    {'d': 'typedef', 'name': 'FooAlias2', 'type': {'k': 'typedef', 'n': 'FooAlias'}},
+    {'d': 'typedef', 'name': 'FooCRec', 'type': {'k': 'ptr', 'to': {'k': 'typedef', 'n': 'FooRec', 'q': Q_CONST}}},
+    {'d': 'typedef', 'name': 'FooCRec2', 'type': {'k': 'typedef', 'n': 'FooCRec'}},
+    {'d': 'typedef', 'name': 'FooRecP', 'type': {'k': 'ptr', 'to': {'k': 'typedef', 'n': 'FooRec', 'q': 0}}},
+    {'d': 'typedef', 'name': 'FooRecP2', 'type': {'k': 'typedef', 'n': 'FooRecP'}},
+    {'d': 'typedef', 'name': 'FooCvp', 'type': {'k': 'ptr', 'to': {'k': 'void', 'q': Q_CONST}}},
+    {'d': 'typedef', 'name': 'FooCvp2', 'type': {'k': 'typedef', 'n': 'FooCvp'}},
 ]
+
+ALIAS_NAMES = ['FooBuf', 'FooStr2', 'FooStr3', 'FooBuf2', 'FooAlias2', 'FooCRec', 'FooCRec2', 'FooRecP', 'FooRecP2',
+               'FooCvp', 'FooCvp2']
+
+# what the harness itself DECLARED for each typedef name of the prelude whose target is a plain type tree
+# (void / basic / typedef / pointer): the oracle expands typedef names through this table, i.e. it judges
+# from the declarations alone (never from what the scanner resolved)
+LOCAL_TYPEDEFS = dict((d['name'], d['type']) for d in PRELUDE
+                      if d['d'] == 'typedef' and d['type']['k'] in ('basic', 'typedef', 'ptr', 'void')
+                      and not (d['type']['k'] == 'ptr' and d['type']['to']['k'] == 'func'))
+
+
+def expand_typedefs(t, seen=()):
+    """the declared type with every typedef name of LOCAL_TYPEDEFS replaced by its declaration (qualifiers
+    of the use are added to the outermost level of the declaration); -> (expanded tree, chain length)"""
+    if t['k'] == 'typedef' and t.get('n') in LOCAL_TYPEDEFS and t['n'] not in seen:
+        u, n = expand_typedefs(LOCAL_TYPEDEFS[t['n']], seen + (t['n'], ))
+        return dict(u, q=u.get('q', 0) | t.get('q', 0)), n + 1
+    if t['k'] == 'ptr':
+        u, n = expand_typedefs(t['to'], seen)
+        return dict(t, to=u), n
+    return t, 0
 
 ENV_CANDIDATES = ['FooCb', 'FooCbAlias', 'FooRec', 'FooUni', 'FooEnum', 'FooFlags', 'FooAlias', 'FooStr',
                   'GDestroyNotify', 'GAsyncReadyCallback', 'GFunc', 'GError', 'GVariant', 'GBytes', 'GMutex',
                   'GQuark', 'GSeekType', 'GIOCondition', 'GObject', 'GInitiallyUnowned', 'GClosure', 'GValue',
-                  'GAsyncResult', 'GCancellable', 'GFloaty', 'Unknown', 'FooMissing', 'FILE', 'long int', '_FooRec']
+                  'GAsyncResult', 'GCancellable', 'GFloaty', 'Unknown', 'FooMissing', 'FILE', 'long int', '_FooRec'] \
+    + ALIAS_NAMES
 
 
 def classify(m, tr, node):
@@ -457,7 +505,10 @@ def pointee_const(t):
 
 def oracle_return_transfer(t, exp):
     """statement: 'returned const values and basic types are not transferred while returned non-const
-    strings are'.  -> 'none' | 'full' | None (statement silent)"""
+    strings are'.  -> 'none' | 'full' | None (statement silent).
+    A return type that IS a typedef name (alias, alias of alias, ...) declared by the harness is judged as
+    the type it was declared to be: `typedef const char *FooStr; FooStr f(void)` returns a const value,
+    `typedef char *FooBuf; FooBuf f(void)` a non-const string, `typedef int FooAlias` a basic type."""
     if exp == ('type', 'none'):
         return 'none'
     if pointee_const(t):
@@ -466,7 +517,19 @@ def oracle_return_transfer(t, exp):
         return 'none'
     if exp == ('type', 'utf8'):
         return 'full'
+    if t['k'] == 'typedef' and t.get('n') in LOCAL_TYPEDEFS:
+        u, _n = expand_typedefs(t)
+        if u['k'] == 'typedef' and u.get('n') in LOCAL_TYPEDEFS:
+            return None
+        return oracle_return_transfer(u, oracle_name(u, 'return', False))
     return None
+
+
+def alias_chain(t):
+    """0 when the type is not a harness-declared typedef name, else the length of its typedef chain"""
+    if t['k'] == 'typedef' and t.get('n') in LOCAL_TYPEDEFS:
+        return expand_typedefs(t)[1]
+    return 0
 
 
 def got_kind(ty):
@@ -537,6 +600,8 @@ class Judge(object):
                 self.cnt.hit('oracle:transfer:return:outside')
             else:
                 self.cnt.hit('oracle:transfer:return:' + want)
+                if alias_chain(t):
+                    self.cnt.hit('oracle:transfer:return:alias-depth%d:%s' % (alias_chain(t), want))
                 if rec['transfer'] != want:
                     self.fail('transfer:' + kkey, 'returned %s has transfer-ownership=%r; the statement requires %r'
                               % (json.dumps(t), rec['transfer'], want), {'kind': 'type', 'case': case})
@@ -613,7 +678,8 @@ def type_spellings(m):
             keys.append(b)
     extra = ['_Bool', 'bool', 'GStrv', 'GList', 'GSList', 'GByteArray', 'GArray', 'GPtrArray', 'GHashTable',
              'FooRec', 'FooUni', 'FooEnum', 'FooFlags', 'FooCb', 'FooCbAlias', 'FooAlias', 'FooStr', 'GError',
-             'GCancellable', 'GQuark', 'GDestroyNotify', 'GAsyncReadyCallback', 'GVariant', 'GClosure', 'GMutex',
+             'FooBuf', 'FooStr2', 'FooStr3', 'FooBuf2', 'FooAlias2', 'FooCRec', 'FooCRec2', 'FooRecP', 'FooRecP2',
+             'FooCvp', 'FooCvp2', 'GCancellable', 'GQuark', 'GDestroyNotify', 'GAsyncReadyCallback', 'GVariant', 'GClosure', 'GMutex',
              'GSeekType', 'GIOCondition', 'GObject', 'Unknown', 'FooMissing', 'long int', 'FILE']
     for e in extra:
         if e not in keys:
@@ -1053,6 +1119,8 @@ def check_transfer_direct(ctx, cnt, judge, res, samples):
     for t in ast.GIR_TYPES:
         types.append(lambda c, t=t: ast.Type(target_fundamental=t.target_fundamental, ctype=t.ctype, is_const=c))
     for g in ('Foo.Rec', 'Foo.Uni', 'Foo.Enum', 'Foo.Flags', 'Foo.Cb', 'Foo.CbAlias', 'Foo.Alias', 'Foo.Str',
+              'Foo.Buf', 'Foo.Str2', 'Foo.Str3', 'Foo.Buf2', 'Foo.Alias2', 'Foo.CRec', 'Foo.CRec2', 'Foo.RecP',
+              'Foo.RecP2', 'Foo.Cvp', 'Foo.Cvp2',
               'GLib.Error', 'GLib.Mutex', 'GLib.Quark', 'GLib.SeekType', 'GLib.IOCondition', 'GLib.DestroyNotify',
               'GObject.Closure', 'GObject.Object', 'GObject.InitiallyUnowned', 'GObject.Value', 'Gio.Cancellable',
               'Gio.Floaty', 'Gio.AsyncResult', 'Gio.AsyncReadyCallback'):
@@ -1140,6 +1208,21 @@ OUT_CASES = [
     ('o9', scanpipe.P(scanpipe.T('char', Q_CONST), 2), '(out)', 'out', '0', 'full'),
     ('o10', scanpipe.P(scanpipe.T('gpointer')), '(out)', 'out', '0', 'full'),
     ('o11', scanpipe.P(scanpipe.T('int')), '(in)', None, None, 'none'),
+    # out parameters whose pointee is a typedef chain: a pointer to (an alias of) a string / number is filled
+    # by the callee -> full, also when the aliased string is const (as for o9)
+    ('o12', scanpipe.P(scanpipe.T('FooStr')), '(out)', 'out', '0', 'full'),
+    ('o13', scanpipe.P(scanpipe.T('FooStr2')), '(out)', 'out', '0', 'full'),
+    ('o14', scanpipe.P(scanpipe.T('FooBuf')), '(out)', 'out', '0', 'full'),
+    ('o15', scanpipe.P(scanpipe.T('FooBuf2')), '(out)', 'out', '0', 'full'),
+    ('o16', scanpipe.P(scanpipe.T('FooAlias')), '(out)', 'out', '0', 'full'),
+    ('o17', scanpipe.P(scanpipe.T('FooAlias2')), '(inout)', 'inout', '0', 'full'),
+    ('o18', scanpipe.P(scanpipe.T('FooStr3')), '(inout)', 'inout', '0', 'full'),
+    ('o19', scanpipe.P(scanpipe.T('FooCvp')), '(out)', 'out', '0', 'full'),
+    # aliases of record pointers: whether the scanner takes them as caller-allocated is not C02's business
+    # (ca None = judge 'full unless caller-allocated' on the caller-allocates attribute that was written)
+    ('o20', scanpipe.P(scanpipe.T('FooCRec')), '(out)', 'out', None, None),
+    ('o21', scanpipe.P(scanpipe.T('FooRecP2')), '(out)', 'out', None, None),
+    ('o22', scanpipe.P(scanpipe.T('FooRecP')), '(out callee-allocates)', 'out', '0', 'full'),
 ]
 
 
@@ -1155,11 +1238,16 @@ def check_out_params(ctx, cnt, judge, samples):
     res = run_scan(ctx, decls, comments)
     idx = index_gir(res['gir'])
     reqs = []
+    resolved = []
     for nm, t, ann, d, ca, tr in OUT_CASES:
         e = idx['function'].get('foo_zo_%s' % nm)
         rec = callable_record(e)['params'][0]
         cnt.hit('out-param:%s' % ann)
         cnt.case(['o', nm], nontrivial=True)
+        if tr is None:
+            ca = rec['caller_allocates']
+            tr = 'none' if ca == '1' else 'full'
+        resolved.append((nm, t, ann, d, ca, tr))
         if rec['direction'] != d or rec['caller_allocates'] != ca:
             ctx.notes.append('out case %s: direction=%r caller-allocates=%r' % (nm, rec['direction'], rec['caller_allocates']))
         if rec['transfer'] != tr:
@@ -1168,7 +1256,7 @@ def check_out_params(ctx, cnt, judge, samples):
         reqs.append({'op': 'c02.transfer', 'pos': 'parameter', 'ctor': False, 'dir': d, 'ca': ca == '1',
                      'ty': {'fundamental': 'gint', 'ctype': 'int*'}})
     model = ctx.driver.batch(reqs)
-    for (nm, t, ann, d, ca, tr), mo in zip(OUT_CASES, model):
+    for (nm, t, ann, d, ca, tr), mo in zip(resolved, model):
         if mo != tr:
             ctx.broken.append('correspondence c02.transfer (annotated direction) differs: %s model=%r documented=%r' % (nm, mo, tr))
     samples.append({'kind': 'out', 'case': OUT_CASES[0][0]})
